@@ -3,7 +3,12 @@
 package tokenV2
 
 import (
+	"errors"
+
+	"github.com/lestrrat-go/jwx/v2/cert"
 	"github.com/lestrrat-go/jwx/v2/jwa"
+	"github.com/lestrrat-go/jwx/v2/jwk"
+	"github.com/lestrrat-go/jwx/v2/jws"
 )
 
 // hAsymmetricJWA is the reference set, written down independently of the code under test: every
@@ -59,5 +64,128 @@ func H17a_tokenv2_twin() {
 	s := vString(5)
 	if acceptableSignatureAlgorithm(jwa.SignatureAlgorithm(s)) && s[0] == 'P' {
 		vAssert(false, "H17a_tokenv2_twin.reach: reachable")
+	}
+}
+
+// ---------------------------------------------------------------------------------------------
+// jws.ParseString stand-in. Contract of jwx (jws/message.go): a parsed message carries its signatures
+// in serialisation order; every signature has non-nil protected headers (an empty header object when
+// the "protected" member is absent); registered header parameters are typed (alg jwa.SignatureAlgorithm,
+// jwk jwk.Key, jku/x5u/typ/kid string, x5c *cert.Chain). jwx itself never returns a message without
+// signatures; n = 0 is included as an over-approximation.
+
+//verif:stub github.com/lestrrat-go/jwx/v2/jws.ParseString => hJWSParseString
+
+type hKey struct{ jwk.Key }
+
+type hHeaders struct {
+	jws.Headers
+	alg            string
+	hasJWK, hasX5C bool
+	jku, x5u       string
+}
+
+func (h *hHeaders) Algorithm() jwa.SignatureAlgorithm { return jwa.SignatureAlgorithm(h.alg) }
+func (h *hHeaders) JWK() jwk.Key {
+	if h.hasJWK {
+		return &hKey{}
+	}
+	return nil
+}
+func (h *hHeaders) JWKSetURL() string { return h.jku }
+func (h *hHeaders) X509URL() string   { return h.x5u }
+func (h *hHeaders) X509CertChain() *cert.Chain {
+	if h.hasX5C {
+		return &cert.Chain{}
+	}
+	return nil
+}
+
+var hJWSFail bool
+var hJWSSigs []*hHeaders
+var hJWSArgs []string
+
+func hJWSParseString(src string) (*jws.Message, error) {
+	hJWSArgs = append(hJWSArgs, src)
+	if hJWSFail {
+		return nil, errors.New("harness: not a JWS")
+	}
+	m := jws.NewMessage()
+	for _, h := range hJWSSigs {
+		m.AppendSignature(jws.NewSignature().SetProtectedHeaders(h))
+	}
+	return m, nil
+}
+
+// hSymHeaders draws the protected headers of one signature: alg is absent or an arbitrary string of
+// 4..6 bytes (none, HS256, ES256, EdDSA, ES256K and every other string of those lengths),
+// jwk / x5c present or not, jku / x5u empty or one arbitrary byte.
+func hSymHeaders() *hHeaders {
+	h := &hHeaders{}
+	switch vChoice(4) {
+	case 0:
+	case 1:
+		h.alg = vString(4)
+	case 2:
+		h.alg = vString(5)
+	case 3:
+		h.alg = vString(6)
+	}
+	vTag("hasJWK")
+	h.hasJWK = vBool()
+	vTag("jku")
+	h.jku = vString(vLen(0, 1))
+	vTag("hasX5C")
+	h.hasX5C = vBool()
+	vTag("x5u")
+	h.x5u = vString(vLen(0, 1))
+	return h
+}
+
+// H17b_tokenv2 + H17c_tokenv2: credentialIsSecure on a parse result with n = 0..maxsigs signatures.
+// accepted => exactly one signature, its algorithm in the asymmetric reference set, and no signature
+// names its own verification key (jwk, jku, x5c, x5u).
+func H17b_tokenv2() {
+	vTag("parseFails")
+	hJWSFail = vBool()
+	n := vLen(0, vParam("maxsigs", 3))
+	for i := 0; i < n; i++ {
+		hJWSSigs = append(hJWSSigs, hSymHeaders())
+	}
+	err := credentialIsSecure("tok")
+	vAssert(len(hJWSArgs) == 1 && hJWSArgs[0] == "tok", "H17b_tokenv2.parses_received_bytes: credentialIsSecure did not parse exactly the credential it was given")
+	if err != nil {
+		vCover("rejected")
+		// a compact, clean, single-signature ES256 token is not refused
+		if !hJWSFail && n == 1 {
+			h := hJWSSigs[0]
+			vAssert(!(h.alg == "ES256" && !h.hasJWK && h.jku == "" && !h.hasX5C && h.x5u == ""), "H17b_tokenv2.clean_es256_accepted: rejected a single-signature ES256 token without key headers")
+		}
+		return
+	}
+	vCover("accepted")
+	vAssert(!hJWSFail, "H17b_tokenv2.unparsable_rejected: accepted a credential that is not a JWS")
+	if n == 0 {
+		vClass("no signature")
+	} else if n >= 2 {
+		vCover("accepted-multi-signature")
+		vClass("JSON-serialised JWS with more than one signature")
+	}
+	vAssert(n == 1, "H17b_tokenv2.exactly_one_signature: credentialIsSecure accepts a JWS that does not carry exactly one signature")
+	for _, h := range hJWSSigs {
+		vAssert(hAsymmetricJWA(h.alg), "H17b_tokenv2.every_alg_asymmetric: accepted a signature whose alg is outside the asymmetric reference set")
+		vAssert(!hForbiddenLookalike(h.alg) && h.alg != "", "H17b_tokenv2.none_mac_rejected: accepted a signature with alg none/HS*/absent")
+		vAssert(!h.hasJWK, "H17c_tokenv2.no_embedded_jwk: accepted a signature carrying a jwk header")
+		vAssert(h.jku == "", "H17c_tokenv2.no_jku: accepted a signature carrying a jku header")
+		vAssert(!h.hasX5C, "H17c_tokenv2.no_x5c: accepted a signature carrying an x5c header")
+		vAssert(h.x5u == "", "H17c_tokenv2.no_x5u: accepted a signature carrying an x5u header")
+	}
+}
+
+func H17b_tokenv2_twin() {
+	h := hSymHeaders()
+	hJWSSigs = []*hHeaders{h}
+	if credentialIsSecure("tok") == nil && h.alg[0] == 'P' {
+		vAssert(false, "H17b_tokenv2_twin.reach: reachable")
 	}
 }
